@@ -134,10 +134,14 @@ func scenario(t *testing.T, idx int64, r *rand.Rand) {
 		}
 		rec = inject.NewScriptedLimit(initial, func(n int) int { return traj[n%len(traj)] })
 	}
-	sk := buildStack(r, 1+r.IntN(30))
+	stratArg := 1 + r.IntN(30)
+	if r.IntN(4) == 0 {
+		stratArg = rec.EstimatedLimit() // the strategy is built with the very number the algorithm starts from (also 0 or negative)
+	}
+	sk := buildStack(r, stratArg)
 	windowSize := 10 + r.IntN(4)
 	concurrent := r.IntN(4) == 0 && settable == nil
-	cfg := rt.J{"strategy": sk.name, "fractions_of_32": sk.nums, "algorithm": algo, "window_size": windowSize, "concurrent": concurrent, "initial_estimate": rec.EstimatedLimit()}
+	cfg := rt.J{"strategy": sk.name, "strategy_constructed_with": stratArg, "fractions_of_32": sk.nums, "algorithm": algo, "window_size": windowSize, "concurrent": concurrent, "initial_estimate": rec.EstimatedLimit()}
 	if algo == "scripted" {
 		cfg["estimate_trajectory_head"] = traj[:10]
 	}
@@ -440,12 +444,42 @@ func addVsUpdate(idx int64, r *rand.Rand) {
 	rt.Distinct(fmt.Sprintf("addvsupdate|%s|%d", kind, off))
 }
 
+// defaultsCtorCase: the convenience constructor (default Vegas algorithm, documented initial limit 20) with a
+// strategy that was built with some other number: right after construction the strategy enforces the algorithm's
+// estimate and every share derives from it.
+func defaultsCtorCase(idx int64, r *rand.Rand) {
+	arg := []int{1, 5, 19, 21, 100, 1000}[r.IntN(6)]
+	sk := buildStack(r, arg)
+	dl, err := limiter.NewDefaultLimiterWithDefaults("c05", sk.st, limit.NoopLimitLogger{}, core.EmptyMetricRegistryInstance)
+	if err != nil {
+		panic(err)
+	}
+	est := dl.EstimatedLimit()
+	rt.Count("defaults_constructor_cases", 1)
+	cfg := rt.J{"constructor": "NewDefaultLimiterWithDefaults", "strategy": sk.name, "strategy_constructed_with": arg, "fractions_of_32": sk.nums, "estimate": est}
+	if got := sk.limit(); got != max1(est) {
+		rt.Violation("C05/"+sk.name+"/enforced-limit-differs-from-estimate/after-construction", idx, rt.J{"config": cfg, "enforced": got})
+		return
+	}
+	for i := range sk.nums {
+		if got, w := sk.binLim(i), share(max1(est), sk.nums[i]); got != w {
+			rt.Violation("C05/"+sk.name+"/partition-share-not-recomputed-from-estimate/after-construction", idx, rt.J{"config": cfg, "partition": sk.keys[i], "share": got, "want": w})
+			return
+		}
+	}
+	rt.Distinct(fmt.Sprintf("defctor|%s|%d|%v", sk.name, arg, sk.nums))
+}
+
 func TestCheck(t *testing.T) {
 	rt.Cases(2000, 400000, func(idx int64) {
 		r := rt.CaseRand(5, idx)
 		rt.Case()
 		if idx%10 == 9 {
 			addVsUpdate(idx, r)
+			return
+		}
+		if idx%20 == 13 {
+			defaultsCtorCase(idx, r)
 			return
 		}
 		scenario(t, idx, r)
